@@ -86,6 +86,13 @@ def main(tier):
             FS = [("FractionScalar(v,u,c)", lambda: FractionScalar(fv, u, c)), ("FractionScalar(c,v,u)", lambda: FractionScalar(c, fv, u)),
                   ("FractionScalar(q,v)", lambda: FractionScalar(q(), fv)), ("FractionScalar.CreateWithQuantity(q,v)", lambda: FractionScalar.CreateWithQuantity(q(), fv))]
             F = F[1:]
+            # ... and a copy of a value of another category of the same quantity type, moved into this category and unit
+            c0 = others_of.get(c)
+            if c0 and P.outcome(db.CheckCategoryUnit, c0, u)[0] == "ok":
+                S.append(("Scalar(c0,v,u).CreateCopy(unit=u,category=c)", lambda: Scalar(c0, v, u).CreateCopy(unit=u, category=c)))
+                A.append(("Array(c0,vs,u).CreateCopy(unit=u,category=c)", lambda: Array(c0, cont(), u).CreateCopy(unit=u, category=c)))
+                F.append(("FixedArray(3,c0,vs,u).CreateCopy(unit=u,category=c)", lambda: FixedArray(3, c0, cont(), u).CreateCopy(unit=u, category=c)))
+                FS.append(("FractionScalar(c0,v,u).CreateCopy(unit=u,category=c)", lambda: FractionScalar(c0, fv, u).CreateCopy(unit=u, category=c)))
             if not given:      # the forms that rely on the unit's default category
                 S = [("Scalar(v,u)", lambda: Scalar(v, u)), ("Scalar((v,u))", lambda: Scalar((v, u)))] + S
                 A = [("Array(vs,u)", lambda: Array(cont(), u))] + A
@@ -106,6 +113,14 @@ def main(tier):
                                    "proj1": pj(first), "proj2": pj(o[1]) if o[0] == "ok" else o[2]})
 
         catnames = {ci["cat"] for ci in proj["cats"]}
+        bytype = {}
+        for ci in proj["cats"]:
+            bytype.setdefault(ci["qt"], []).append(ci["cat"])
+        others_of = {}
+        for qt_, cs_ in bytype.items():
+            for i_, c_ in enumerate(cs_):
+                if len(cs_) > 1:
+                    others_of[c_] = cs_[(i_ + 1) % len(cs_)]
         for r in proj["rows"]:
             u = r["unit"]
             c = db.GetDefaultCategory(u)
